@@ -28,6 +28,8 @@ Statements == {
                                               ChElem(Elem(TagComp("Q", FALSE, Undef), <<>>, <<ChExpr(Call("q1", PVNode("pq1")))>>))>>), FALSE>>,
   (* not a JSX element: a typed defineComponent call under resolveType - its augmentation consults what the   *)
   (* visitor remembers of the user's imports from 'vue' (the element is a placeholder, the site kind is "dc") *)
+  <<"divx",    Elem(TagHtml("div"), <<>>, <<ChExpr(Ident("x1", FALSE, Num(1)))>>), FALSE>>,       \* an element: its child list is an array, whatever `o2.div` was
+  <<"memberdiv", Elem(TagMember("o2", "div", Opq("vo2div")), <<>>, <<ChText(<<"a">>)>>), FALSE>>,
   <<"dc",      Elem(TagHtml("div"), <<>>, <<>>), FALSE>>
 }
 
@@ -35,6 +37,8 @@ Statements == {
 DCall(n)  == Elem(TagComp("D" \o n, FALSE, Undef), <<>>, <<ChExpr(Call("df" \o n, PVNode("pd" \o n)))>>)
 DIdent(n) == Elem(TagComp("E" \o n, FALSE, Undef), <<>>, <<ChExpr(Ident("a", TRUE, PVNode("pva")))>>)
 DFrag(n)  == Elem(TagFrag, <<>>, <<ChExpr(Ident("y" \o n, FALSE, Num(2)))>>)
+DMemberDiv(n) == Elem(TagMember("o2", "div", Opq("vo2div")), <<>>, <<ChText(<<"b">>)>>)       \* <o2.div>: a component whose last name is an HTML name
+DDiv(n) == Elem(TagHtml("div"), <<>>, <<ChExpr(Ident("w" \o n, FALSE, Num(4)))>>)
 DFragTag(n) == Elem(TagFragmentName, <<>>, <<ChExpr(Ident("z" \o n, FALSE, Num(3)))>>)
 Distractors(n) == {
   <<Assign("a", PlainItem), <<>>, TRUE>>,
@@ -42,6 +46,8 @@ Distractors(n) == {
   <<Site("x", "x"), <<DCall(n)>>, FALSE>>,
   <<Site("x", "x"), <<DFrag(n)>>, FALSE>>,
   <<Site("x", "x"), <<DFragTag(n)>>, FALSE>>,
+  <<Site("x", "x"), <<DMemberDiv(n)>>, FALSE>>,
+  <<Site("x", "x"), <<DDiv(n)>>, FALSE>>,
   <<FnItem(<<Site("x", "x")>>), <<DCall(n)>>, FALSE>>,
   <<FnItem(<<>>), <<>>, FALSE>>,
   <<ArrowExpr(Site("x", "x")), <<DCall(n)>>, FALSE>>,
